@@ -291,7 +291,7 @@ func propC03(c *Ctx, r *Report) {
 					okNil := false
 					if ev != nil {
 						for _, t := range nilTestsOf(c, ev) {
-							if blockOrDom(t.N, ret.Block()) {
+							if nilEdgeDom(t, ret.Block()) {
 								okNil = true
 							}
 						}
